@@ -27,6 +27,35 @@ where
     t.map.keys().copied().collect()
 }
 
+/// third position: right of and below the origin; the shape is painted (fill only) into a display window with a positive
+/// top-left corner that cuts off its first row and column, ends on its last row and reaches one column beyond it:
+/// inside the window exactly the shape's points are painted (flavour by flavour)
+const TL3: (i32, i32) = (5, 4);
+fn window_fill<P>(name: &str, p: &P, w: u32, h: u32, obs: &mut Obs)
+where
+    P: Primitive + Copy + PointsIter,
+    Styled<P, PrimitiveStyle<embedded_graphics::pixelcolor::BinaryColor>>: Drawable<Color = embedded_graphics::pixelcolor::BinaryColor>,
+{
+    if w < 2 || h < 2 || w > 130 || h > 130 {
+        return;
+    }
+    use embedded_graphics::pixelcolor::BinaryColor;
+    let win = Rectangle::new(Point::new(TL3.0 + 1, TL3.1 + 1), Size::new(w, h - 1));
+    let want: Pts = p.points().filter(|q| win.contains(*q)).map(|q| (q.x, q.y)).collect();
+    let st = p.into_styled(PrimitiveStyle::with_fill(BinaryColor::On));
+    let mut a = egverif::targets::RecD::<BinaryColor>::with_box(win);
+    let _ = st.draw(&mut a);
+    let mut b = egverif::targets::RecN::<BinaryColor>::with_box(win);
+    let _ = st.draw(&mut b);
+    obs.class("filled-into-a-display-window");
+    for (flavour, m) in [("draw_iter-only", &a.map), ("native", &b.map)] {
+        let got: Pts = m.keys().filter(|k| win.contains(Point::new(k.0, k.1))).copied().collect();
+        if got != want {
+            obs.fail("filled-shape-paints-its-points", format!("{name} at {:?} into the {flavour} window {:?}: {} points painted inside, points() has {} there; first difference {:?}", TL3, (win.top_left.x, win.top_left.y, win.size.width, win.size.height), got.len(), want.len(), got.symmetric_difference(&want).next()));
+        }
+    }
+}
+
 /// `at_tl2` (a shape built at TL2, as points() and as painted by a fill-only style) must be `at_tl` moved by TL2 - TL
 fn same_elsewhere(name: &str, at_tl: &Pts, points_at_tl2: Pts, drawn_at_tl2: Option<Pts>, obs: &mut Obs) {
     let (dx, dy) = (TL2.0 - TL.0, TL2.1 - TL.1);
@@ -160,6 +189,7 @@ fn check_circle(d: u32, obs: &mut Obs) {
     if d <= 130 {
         let c2 = Circle::new(Point::new(TL2.0, TL2.1), d);
         same_elsewhere("circle", &c, set(c2.points()), Some(drawn_fill(&c2)), obs);
+        window_fill("circle", &Circle::new(Point::new(TL3.0, TL3.1), d), d, d, obs);
     }
     obs.outcome(&c);
     obs.nontrivial_if(!c.is_empty());
@@ -244,6 +274,7 @@ fn check_ellipse(w: u32, h: u32, obs: &mut Obs) {
     if w <= 130 && h <= 130 {
         let e2 = Ellipse::new(Point::new(TL2.0, TL2.1), Size::new(w, h));
         same_elsewhere("ellipse", &e, set(e2.points()), Some(drawn_fill(&e2)), obs);
+        window_fill("ellipse", &Ellipse::new(Point::new(TL3.0, TL3.1), Size::new(w, h)), w, h, obs);
     }
     obs.outcome(&e);
     obs.nontrivial_if(!e.is_empty());
@@ -281,6 +312,7 @@ fn check_rrect(c: &Case, obs: &mut Obs) {
     if *w <= 130 && *h <= 130 {
         let rr2 = mk_rrect(TL2.0, TL2.1, *w, *h, *tl, *tr, *br, *bl);
         same_elsewhere("rounded rectangle", &got, set(rr2.points()), Some(drawn_fill(&rr2)), obs);
+        window_fill("rounded rectangle", &mk_rrect(TL3.0, TL3.1, *w, *h, *tl, *tr, *br, *bl), *w, *h, obs);
     }
     obs.outcome(&got);
     obs.nontrivial_if(!got.is_empty());
@@ -588,7 +620,7 @@ fn main() {
         assumptions: &["angles follow the library's convention: direction (cos t, sin t) with y down, positive sweep clockwise on screen", "f64 distances with 1e-6 slack in favour of the code; observed maxima are reported in the counters"],
         parts: |_| vec![PartSpec::new("shapes", "verif"), PartSpec::new("angles", "verif"), PartSpec::new("angles-fixed-point", "verif_fp")],
         run_part,
-        required_classes: |_| vec!["circle", "described-by-centre", "ellipse", "thin-ellipse", "even-sides", "rounded-rectangle", "radii-through-the-builder", "radii-need-confining", "unequal-radii", "sector-and-arc", "negative-sweep", "sweep>=360", "fractional-angle", "large-diameter", "sweep-just-below-360"],
+        required_classes: |_| vec!["circle", "filled-into-a-display-window", "described-by-centre", "ellipse", "thin-ellipse", "even-sides", "rounded-rectangle", "radii-through-the-builder", "radii-need-confining", "unequal-radii", "sector-and-arc", "negative-sweep", "sweep>=360", "fractional-angle", "large-diameter", "sweep-just-below-360"],
         crash_is_verdict: false,
     })
 }
